@@ -1,6 +1,7 @@
 package main
 
 import (
+	"strconv"
 	"bytes"
 	"encoding/json"
 	"fmt"
@@ -593,7 +594,19 @@ func c13CrossRef(module, start string) (string, bool) {
 // c13MakeRef prints every module source sequentially (own process).
 func c13MakeRef() {
 	table := map[string]map[string]string{}
-	for _, src := range moduleSources(*flagSeed, *flagTier) {
+	skip := map[int]bool{}
+	for _, f := range strings.Split(*flagSkip, ",") {
+		if n, err := strconv.Atoi(strings.TrimSpace(f)); err == nil {
+			skip[n] = true
+		}
+	}
+	for si, src := range moduleSources(*flagSeed, *flagTier) {
+		noteProgress(int64(si))
+		if skip[si] {
+			// the sequential print of this module killed or blocked an earlier
+			// reference process: no entry
+			continue
+		}
 		src := src
 		entry := map[string]string{}
 		protect(func() {
